@@ -6,6 +6,15 @@ func register(c *PropConfig) { propConfigs[c.ID] = c }
 
 func init() {
 	register(&PropConfig{
+		ID:       "C10",
+		Packages: []string{"./runtime", "."},
+		Assume: []string{
+			"writer contract: an io.Writer accepts a prefix of each write and all of it iff it returns nil",
+			"bufio.Writer contract: sticky error; a write either buffers or flushes a prefix of pending++data to its target",
+			"interface contract of Component.Render assumed for components not under contract (user components)",
+		},
+	})
+	register(&PropConfig{
 		ID:       "C18",
 		Replay:   replayC18,
 		Level:    "other",
